@@ -90,7 +90,7 @@ are only ever woken through `schedule()`; tasks parked in the select hub are out
 theorem schedule_atmost1 {threaded users progs} {s : State} (hr : Reachable threaded users progs s) (u : TaskId)
     (hu : u < users.length) : s.ready.count u ≤ 1 ∧ (holds s.s s.tasks u → u ∉ s.ready) := by
   have hn := reach_nUsers hr
-  exact ⟨(reach_U hr).cnt u (by omega), (reach_U hr).hold u (by omega)⟩
+  exact ⟨(reach_U hr).cnt u (by rw [hn]; exact hu), (reach_U hr).hold u (by rw [hn]; exact hu)⟩
 
 /-- **no wake is lost.**  Whenever a ScheduleTask's slice ends (the scheduler thread returns to its loop from
 `ScheduleTask.run`), the task it was created for is in the ready queue — either it was there already, or it has just
@@ -211,10 +211,11 @@ example : (runStrict (Handoff.init false [[]] [[.schedule 0], [.schedule 0]]) wi
     (fun s => (s.s, s.ready, s.hubPipe, (s.fs.map fun f => isSigB f.pc))) =
     some (.hub .select, [1], 0, [true, false]) := by decide
 
-/-- …and both wake-ups end with the task queued exactly once -/
+/-- …both `schedule(0)` calls completed, the first ScheduleTask has run: the task is queued once, at the head, and the
+second ScheduleTask is still behind it -/
 def witnessTwice : List Tid :=
-  [2, 2, 2, 2, 2, 3, 3, 3, 3, 3, 0, 0, 0, 0, 0, 0, 0, 0, 0, 0, 0, 0]
+  [2, 2, 2, 2, 2, 3, 3, 3, 3, 3, 0, 0, 0, 0, 0, 0]
 example : (runStrict (Handoff.init false [[]] [[.schedule 0], [.schedule 0]]) witnessTwice).map
-    (fun s => (s.ready, s.s)) = some ([0], .runLen) := by decide
+    (fun s => (s.ready, s.s)) = some ([0, 2], .runLen) := by decide
 
 end Pox.C07
